@@ -200,6 +200,14 @@ def run(ctx, report: Report) -> None:
         n_orders += 1
         if h == ref and bad is None:
             bad = f'{what} ({variant} vs {base}) leaves the hash unchanged although the maps are unequal'
+    # the same map given as pairs with a repeated key (last one wins, like dict()) and as the resulting dict
+    for pairs in ([('a', '1'), ('b', '2'), ('a', '3')], [('a', '1'), ('a', '1')], [('k', 'x'), ('k', 'y'), ('k', 'z')]):
+        h_pairs, _ = map_hash(pairs, False)
+        h_dict, _ = map_hash(list(dict(pairs).items()), True)
+        n_orders += 1
+        if h_pairs != h_dict and bad is None:
+            bad = (f'the pairs {pairs} and the equal dict {dict(pairs)} hash differently (the hash must be computed from the stored '
+                   f'mapping, not from the raw argument)')
     ok = bad is None
     r3.instance({'ImmutableDict._hash': 'interpreted on every order of three entries (pairs and dict) and four unequal maps',
                  'cases': n_orders, 'order_independent_and_content_dependent': ok}, key='maphash')
@@ -233,8 +241,9 @@ def run(ctx, report: Report) -> None:
         r4.violation('css_parser._cached_css_compile lru_cache', pmod.where(cached),
                      f'_cached_css_compile is not decorated with lru_cache(maxsize=<positive int>) (maxsize={maxsize}): the '
                      f'pattern cache is unbounded or absent')
-    from .sem import compile_table
+    from .sem import compile_table, pattern_handover_table
     compile_table(ctx, r4, r4)
+    pattern_handover_table(ctx, r4)
     cparams = [a.arg for a in cached.args.args]
     # the cached function reads nothing but its parameters and module-level constants / functions
     free = set()
